@@ -222,6 +222,15 @@ def systematic_cases():
                          extra_files={"lib/COND": HELPERS["lib"] + "include('../cfg/inc.cond')\nrun_command(name='u', run=RUN)\n", "cfg/inc.cond": inc_ok}))
     cases.append(mk_case(None, True, "same file included by two COND files", raw_cond="include('//cfg/inc.cond')\n" + HELPERS[""] + "run_command(name='t', run=RUN, deps=['//lib:u'])\n",
                          extra_files={"lib/COND": HELPERS["lib"] + "include('//cfg/inc.cond')\nrun_command(name='u', run=RUN)\n", "cfg/inc.cond": inc_ok}))
+    for order in (["//lib:u", ":h1"], [":h1", "//lib:u"], ["//lib:u"]):
+        dl = "[%s]" % ", ".join(repr(x) for x in order)
+        top = "include('defs.cond')\n" + HELPERS[""] + "run_command(name='t', run=RUN, deps=%s)\n" % dl
+        libc = HELPERS["lib"] + "include('defs.cond')\nrun_command(name='u', run=RUN)\n"
+        cases.append(mk_case(None, True, "same include() argument in two directories, both fine %s" % dl, raw_cond=top, extra_files={"lib/COND": libc, "defs.cond": inc_ok, "lib/defs.cond": "RUN = 'true'\n"}))
+        cases.append(mk_case(None, False, "same include() argument: the dependency's file is missing %s" % dl, raw_cond=top, extra_files={"lib/COND": libc, "defs.cond": inc_ok}))
+        cases.append(mk_case(None, False, "same include() argument: the dependency's file defines a task %s" % dl, raw_cond=top, extra_files={"lib/COND": libc, "defs.cond": inc_ok, "lib/defs.cond": "RUN = 'true'\nrun_command(name='z', run='true')\n"}))
+        cases.append(mk_case(None, False, "same include() argument: the dependency's file raises %s" % dl, raw_cond=top, extra_files={"lib/COND": libc, "defs.cond": inc_ok, "lib/defs.cond": "RUN = 1/0\n"}))
+        cases.append(mk_case(None, False, "same include() argument: the target's file is missing %s" % dl, raw_cond=top, extra_files={"lib/COND": libc, "lib/defs.cond": inc_ok}))
     cases.append(mk_case(None, True, "include twice", raw_cond="include('inc.cond')\ninclude('inc.cond')\n" + HELPERS[""] + use, extra_files={"inc.cond": inc_ok}))
     cases.append(mk_case(None, False, "include missing file", raw_cond="include('nope.cond')\n" + HELPERS[""] + ok_t))
     cases.append(mk_case(None, False, "include missing project-relative", raw_cond="include('//nope/x.cond')\n" + HELPERS[""] + ok_t))
